@@ -424,6 +424,16 @@ def step (fields : List String) : String :=
     (match Tal.expand py 200000 t ctx with
      | none => "MACHINE-STUCK"
      | some (o, _) => encStr o) ++ "\t" ++ encStr dOut ++ "\t" ++ TalIO.encVars dCtx.locals ++ "\t" ++ toString dCtx.localStack.length
+  | ["talinclude", allowPy, globals, tpls, nodes] =>
+    -- templates included through `structure` (Model/Include) substituted into a plain TAL tree, then machine and denotation
+    let t := Tal.inlineList (TalIO.parseTpls tpls) 64 (TalIO.parseNodes nodes)
+    let g := match TalIO.parseVal globals with | .map m => m | _ => []
+    let ctx : Tal.Ctx := { globals := g, allowPython := decBool allowPy }
+    let py : Str → Tal.Val := fun _ => .str (lit "PYTHON-ORACLE")
+    let (dOut, dCtx) := Tal.denoteList py t ctx
+    (match Tal.expand py 200000 t ctx with
+     | none => "MACHINE-STUCK"
+     | some (o, _) => encStr o) ++ "\t" ++ encStr dOut ++ "\t" ++ TalIO.encVars dCtx.locals ++ "\t" ++ toString dCtx.localStack.length
   | ["tales", allowPy, globals, locals, expr] =>
     let g := match TalIO.parseVal globals with | .map m => m | _ => []
     let l := match TalIO.parseVal locals with | .map m => m | _ => []
